@@ -79,6 +79,9 @@ theorem qLoop_pv (R : Rules) (rec : Game → Int → Int → Env → Int × Env)
       · exact hf
       · rw [ih]; exact hf
 
+theorem qEnter_pv (cfg : Cfg) (g : Game) (alpha beta : Int) (e : Env) : (qEnter cfg g alpha beta e).pv = e.pv := by
+  unfold qEnter; simp only; rw [maybePoll_pv, onNode_pv]
+
 theorem quiescence_pv (R : Rules) (cfg : Cfg) : ∀ fuel g a b e, (quiescence R cfg fuel g a b e).2.pv = e.pv := by
   intro fuel
   induction fuel with
@@ -86,8 +89,8 @@ theorem quiescence_pv (R : Rules) (cfg : Cfg) : ∀ fuel g a b e, (quiescence R 
   | succ fuel ih =>
     intro g alpha beta e
     simp only [quiescence]
-    have h1 : (({ (e.onNode cfg 2 g 0 alpha beta).maybePoll cfg with nodes := ((e.onNode cfg 2 g 0 alpha beta).maybePoll cfg).nodes + 1 } : Env)).pv = e.pv := by
-      simp only; rw [maybePoll_pv, onNode_pv]
+    have h1 := qEnter_pv cfg g alpha beta e
+    generalize qEnter cfg g alpha beta e = e3 at h1 ⊢
     split
     · exact h1
     · split
